@@ -109,6 +109,8 @@ def errStr : Option Err → String
 
 /-- apply one event to the model state; `none` = not enabled (now) -/
 def applyEv (c : Cfg) (s : St) : Ev → Option St
+  | .lab (.cancel i) => if (s.subs i).ctxCancelled then some s else step c s (.cancel i)   -- cancel funcs are idempotent
+  | .lab (.shutCancel k) => if (s.shuts k).ctxDone then some s else step c s (.shutCancel k)
   | .lab l => step c s l
   | .fan i p sendOk flushOk =>
     match s.joe with
